@@ -32,7 +32,7 @@ variable list), univariate entry point Ok on <= 1 variable (none included).  The
 that polynomial.  Integration steps are not value-checked here (C04 does that); the reference restarts
 from the polynomial they returned.
 """
-import struct, math, hashlib, random
+import re, struct, math, hashlib, random
 from fractions import Fraction
 
 U = Fraction(1, 2 ** 53)
@@ -756,6 +756,112 @@ def oracle(req, impl):
 
 
 # ----------------------------------------------------------------------------- evidence helpers
+
+_ERRKIND = re.compile(r"\berr [A-Za-z]+")
+
+
+def strip_err_kinds(ans):
+    """`err TooManyVariables` -> `err`: the statement names no error kind (which variant a refused call reports is
+    incidental); Ok / Err / panic and everything inside an Ok answer is still compared"""
+    return _ERRKIND.sub("err", ans)
+
+
+def final_bound(p, req):
+    """the bound `check_final` judges the final evaluation of polynomial p against: ('tol', bound) |
+    ('range',) when a power / factor / partial product leaves the range of the oracle's rounding model (the order of the
+    operations decides what over- / underflow does) | None when the oracle does not judge the value at all (outside the
+    domain, several variables through the univariate entry point, ...)"""
+    sp = sparse(p)
+    if sp is None:
+        return None
+    if "x" in req:
+        if p[0] == "I" and len(p[2]) > 1:
+            return None
+        names = all_vars(sp)
+        if len(names) > 1 or not finite(req["x"]):
+            return None
+        pt = {n: Fraction(req["x"]) for n in names}
+    else:
+        binds = {}
+        for n, val in req["binds"]:
+            binds[n] = val
+        if any(not finite(v) for v in binds.values()):
+            return None
+        if p[0] == "S":
+            if len(binds) != 1:
+                return None
+            pt = {own_var(p): Fraction(list(binds.values())[0])}
+        else:
+            if not names_used(p) <= set(binds):
+                return None
+            pt = {n: Fraction(binds[n]) for n in names_used(p)}
+    for n, xv in pt.items():
+        if not in_domain([sp], n, xv):
+            return None
+    if all_integer(sp):
+        if len(sp) > BIG:
+            return None
+        if p[0] == "S":
+            xs = [Fraction(req["x"])] if "x" in req else [Fraction(val) for _, val in req["binds"] if finite(val)]
+            if not top_power_in_range(p, xs):
+                return ("range",)
+        vals = term_values_exact(sp, pt, guard=True)
+        if vals is None:
+            return ("range",)
+        nt = len(vals)
+        deg = max([abs(e) for _, d in sp for e in d.values()] + [0])
+        nv = max([len(d) for _, d in sp] + [0])
+        return ("tol", (8 + 2 * nt + 2 * nv + 2 * deg) * U * sum(abs(t) for t in vals))
+    try:
+        vals = term_values_float(sp, pt)
+        facs = [math.pow(float(pt[v]), float(e)) for _, d in sp for v, e in d.items()] + [float(c) for c, _ in sp]
+    except (OverflowError, ValueError, ZeroDivisionError):
+        return ("range",)
+    mags = [abs(t) for t in vals + facs if t != 0]
+    if not finite(math.fsum(vals)) or (mags and (max(mags) > 1e250 or min(mags) < 1e-250)):
+        return ("range",)
+    return ("tol", Fraction(1e-11 * math.fsum(abs(t) for t in vals) + 1e-300))
+
+
+def compare(req, impl, model):
+    """Token-wise (polynomials, Ok / Err / panic of every step; not the KIND of an error).  The VALUE of the final
+    evaluation of a `chain` / `chainm` request - "evaluates at every point of the domain to the true derivative", a real
+    number promised of a binary64 computation - is compared up to twice the rounding bound the oracle judges it against
+    (relative to sum |term|: the natural scale when the terms of a derivative cancel); where a factor leaves the range of
+    that rounding model only Ok / Err is compared."""
+    from __main__ import default_compare
+    si, sm = strip_err_kinds(impl), strip_err_kinds(model)
+    d = default_compare(req, si, sm)
+    if d is None:
+        return None
+    try:
+        r = parse_request(req)
+        if r["cmd"] not in ("chain", "chainm"):
+            return d
+        pi, pm = impl.rsplit(" | ", 1) if " | " in impl else ("", impl), model.rsplit(" | ", 1) if " | " in model else ("", model)
+        # everything before the final evaluation must agree under the default rule
+        if pi[0] or pm[0]:
+            if default_compare(req, strip_err_kinds(pi[0]), strip_err_kinds(pm[0])) is not None:
+                return d
+        ti, tm = pi[1].split(), pm[1].split()
+        if not (len(ti) == 2 and len(tm) == 2 and ti[0] == "ok" and tm[0] == "ok" and ti[1].startswith("f") and tm[1].startswith("f")):
+            return d
+        segs = parse_answer(r["cmd"], model)
+        if len(segs) != len(r["steps"]) + 1 or any(sg[0] != "ok" for sg in segs[:-1]) or segs[-1][0] != "val":
+            return d
+        cur = segs[-2][1] if len(segs) >= 2 else r["poly"]
+        fb = final_bound(cur, r)
+    except Exception:
+        return d
+    if fb is None:
+        return d
+    if fb[0] == "range":
+        return None
+    a, b = f_of_bits(int(ti[1][1:])), f_of_bits(int(tm[1][1:]))
+    if finite(a) and finite(b) and abs(Fraction(a) - Fraction(b)) <= 2 * fb[1]:
+        return None
+    return d
+
 
 def nontrivial(req, model):
     if model.startswith("bad-request") or model == "panic":
